@@ -299,12 +299,17 @@ def run(pid, tier, seed):
     P, R = load(log)
     obs = build(pid, P, R, tier, log_dir)
     import plan_props
+    import tc_props
     obs += plan_props.build(pid, P, R, tier, log_dir)
+    obs += tc_props.build(pid, P, R, tier, log_dir)
     results = []
     for ob in obs:
         t0 = time.time()
         try:
             r = ob.run()
+        except Inconclusive as e:
+            r = {"id": ob.id, "engine": "E2-X mirsmt", "statement": ob.statement, "bound": ob.bound, "status": "inconclusive",
+                 "reason": str(e), "wall_s": round(time.time() - t0, 2)}
         except (mir.Unsupported, symex.PathExplosion) as e:
             r = {"id": ob.id, "engine": "E2-X mirsmt", "statement": ob.statement, "bound": ob.bound, "status": "inconclusive",
                  "reason": f"encoder does not support the current code: {e}", "wall_s": round(time.time() - t0, 2)}
